@@ -13,13 +13,14 @@
 namespace Mpt.Refs
 
 inductive Kind where
-  | tok | arr | mref | uref
+  | tok | arr | mref | uref | vst | dbl
   deriving DecidableEq, Repr, Inhabited
 
 inductive Elem where
   | tok (t : Nat)
   | arr (b : Option Nat)
   | mref (o : Option Nat)
+  | num (k : Nat)
   deriving DecidableEq, Repr, Inhabited
 
 structure Buf where
@@ -99,7 +100,8 @@ def unrefBuf : Nat → State → Nat → State
           | .arr (some c) => unrefBuf fuel st c
           | .arr none => st
           | .mref (some o) => unrefObj st o
-          | .mref none => st) (s.setBuf b { x with ref := 0 })
+          | .mref none => st
+          | .num _ => st) (s.setBuf b { x with ref := 0 })
         s1.freeBuf b
 
 def fuelOf (s : State) : Nat := s.bufs.length + 1
@@ -116,6 +118,7 @@ def finiElem (s : State) : Elem → State
   | .arr none => s
   | .mref (some o) => unrefObj s o
   | .mref none => s
+  | .num _ => s
 
 /-- copy-construct one element as `mpt_buffer_set` does: a refused copy constructor falls back to default
     construction (an empty element) -/
@@ -124,6 +127,7 @@ def copyElem (s : State) : Elem → State × Elem
   | .arr none => (s, .arr none)
   | .arr (some c) => (addrefBuf s c, .arr (some c))
   | .mref none => (s, .mref none)
+  | .num k => (s, .num k)
   | .mref (some o) =>
     match s.objs[o - 1]? with
     | none => (s, .mref none)
@@ -191,5 +195,54 @@ def reach : Nat → State → List Nat → Nat → List Nat
           | _ => acc) (seen ++ [b])
 
 def reachable (s : State) (src dst : Nat) : Bool := (reach (fuelOf s) s [] src).contains dst
+
+/-! ### raw data stages (mptplot/values: an array of `value_store` elements, each holding an array of doubles) -/
+
+/-- `mpt_values_prepare(&elem->_d, 1)` and the store of `k` for element `i` of the (private) buffer `b`: the array
+    inside the element gets a private buffer when it is shared, then the value is appended -/
+def elemAppend (s : State) (b i k : Nat) : State :=
+  match s.buf? b with
+  | none => s
+  | some x =>
+    match x.elems.getD i (.arr none) with
+    | .arr none =>
+      let nb := s.bufs.length
+      let s1 := s.newBuf { ref := 1, kind := .dbl, elems := [.num k] }
+      s1.setBuf b { x with elems := x.elems.set i (.arr (some nb)) }
+    | .arr (some c) =>
+      (match s.buf? c with
+       | none => s
+       | some y =>
+         if y.ref < 2 then s.setBuf c { y with elems := y.elems ++ [.num k] }
+         else
+           let nb := s.bufs.length
+           let s1 := (s.setBuf c { y with ref := y.ref - 1 }).newBuf { ref := 1, kind := .dbl, elems := y.elems ++ [.num k] }
+           s1.setBuf b { x with elems := x.elems.set i (.arr (some nb)) })
+    | _ => s
+
+/-- `mpt_stage_data(stage of handle h, dim)` followed by one more value `k` in that dimension; `false` = refused
+    (the array of the handle does not hold value stores) -/
+def stagePut (s : State) (h dim k : Nat) : State × Bool :=
+  match s.handle h with
+  | none =>
+    let nb := s.bufs.length
+    let s1 := (s.newBuf { ref := 1, kind := .vst, elems := List.replicate (dim + 1) (.arr none) }).setHandle h (some nb)
+    (elemAppend s1 nb dim k, true)
+  | some b =>
+    match s.buf? b with
+    | none => (s, false)
+    | some x =>
+      if x.kind ≠ .vst then (s, false)
+      else
+        let (s1, r) := detach s h
+        match r with
+        | none => (s1, false)
+        | some nb =>
+          (match s1.buf? nb with
+           | none => (s1, false)
+           | some y =>
+             let s2 := if dim < y.elems.length then s1
+               else s1.setBuf nb { y with elems := y.elems ++ List.replicate (dim + 1 - y.elems.length) (.arr none) }
+             (elemAppend s2 nb dim k, true))
 
 end Mpt.Refs
